@@ -173,6 +173,7 @@ def run_query(q):
     m = re.search(r'Runtime Symex: ([\d.]+)s', out)
     if m: res['symex_s'] = float(m.group(1))
     if rc == -9: return done('inconclusive', 'timeout after %ds' % q.timeout)
+    if 'ran out of memory' in out: return done('inconclusive', 'SAT solver ran out of memory (limit %s GB)' % q.mem_gb)
     if re.search(r'^(.*\bERROR\b.*|.*\(error.*|.*Invariant check failed.*|.*std::bad_alloc.*)$', out, re.M) and 'VERIFICATION' not in out:
         return done('inconclusive', 'tool error: ' + (re.search(r'^(.*(ERROR|\(error|Invariant|bad_alloc).*)$', out, re.M).group(1))[:300])
     failed = re.findall(r'^\[([^\]]+)\] (?:line \d+ )?(.*): FAILURE$', out, re.M)
